@@ -16,7 +16,9 @@ struct ev_loop { ev_tstamp now; int broken; };
 #define EVBREAK_ALL	2
 #define EV_READ		1
 
-#define EV_WATCHER(type)	int active; void *data; void (*cb)(EV_P_ struct type *w, int revents);
+#define EV_WATCHER(type)	int active; int pending; void *data; void (*cb)(EV_P_ struct type *w, int revents);
+#define ev_is_pending(w)	((w)->pending)
+#define ev_is_active(w)	((w)->active)
 
 typedef struct ev_periodic {
 	EV_WATCHER(ev_periodic)
@@ -39,7 +41,7 @@ typedef struct ev_timer { EV_WATCHER(ev_timer) ev_tstamp at, repeat; } ev_timer;
 typedef struct ev_io { EV_WATCHER(ev_io) int fd, events; } ev_io;
 typedef struct ev_signal { EV_WATCHER(ev_signal) int signum; } ev_signal;
 
-#define ev_init(w, cb_)	do { (w)->active = 0; (w)->cb = (cb_); } while (0)
+#define ev_init(w, cb_)	do { (w)->active = 0; (w)->pending = 0; (w)->cb = (cb_); } while (0)
 #define ev_periodic_init(w, cb_, ofs, ival, rcb)	do { ev_init(w, cb_); (w)->offset = (ofs); (w)->interval = (ival); (w)->reschedule_cb = (rcb); } while (0)
 #define ev_child_init(w, cb_, pid_, trace)	do { ev_init(w, cb_); (w)->pid = (pid_); (w)->flags = (trace); } while (0)
 #define ev_timer_init(w, cb_, after, rep)	do { ev_init(w, cb_); (w)->at = (after); (w)->repeat = (rep); } while (0)
